@@ -304,6 +304,10 @@ theorem C12_block_shape_ok_repeat (x : Chunks) (r axis : Nat) (hr : 0 < r) (hcan
 example : repeatChunkss [[4, 4, 1]] 3 0 = some [[4, 4, 4, 4, 4, 4, 3]]
     ∧ repeatBlock [[4, 4, 1]] 3 0 [6] = some [3] ∧ repeatBlock [[4, 4, 1]] 3 0 [5] = some [4] := by decide
 
+/-- the repaired `repeat` normalises a negative axis first, and `repeats == 0` declares a zero-length axis -/
+example : repeatDeclared [[2, 1], [2]] 2 (-2) = some [[2, 2, 2], [2]] ∧ repeatDeclared [[2, 1], [2]] 2 (-1) = some [[2, 1], [2, 2]]
+    ∧ repeatDeclared [[2, 1], [2]] 2 (-3) = none ∧ repeatDeclared [[2, 1], [2]] 0 (-2) = some [[0], [2]] := by decide
+
 theorem C12_declared_eq_reference_repeat (c n r : Nat) : (regGrid c (n * r)).sum = n * r := regGrid_sum c (n * r)
 
 example : ∀ c ∈ ([[4, 4, 1]] : Chunks), Canon c := by
